@@ -159,9 +159,9 @@ func (ex *Exec) step(st *State, in ssa.Instruction) []*State {
 		}
 		st.vals[v] = SV{K: KFunc, Fn: v.Fn.(*ssa.Function)}
 	case *ssa.RunDefers:
-		// no defer in the subset (Defer instructions are rejected)
+		ex.runDefers(st, v)
 	case *ssa.Defer:
-		panic(unsupported("defer"))
+		ex.stepDefer(st, v)
 	case *ssa.Go:
 		panic(unsupported("go statement"))
 	case *ssa.Select, *ssa.Send:
@@ -170,8 +170,14 @@ func (ex *Exec) step(st *State, in ssa.Instruction) []*State {
 		panic(unsupported("type assertion"))
 	case *ssa.Range, *ssa.Next:
 		panic(unsupported("range over map/string"))
-	case *ssa.FieldAddr, *ssa.Field:
-		panic(unsupported("struct field access"))
+	case *ssa.FieldAddr:
+		ex.stepFieldAddr(st, v)
+	case *ssa.Field:
+		x := ex.val(st, v.X)
+		if x.K != KStruct || v.Field >= len(x.Fields) {
+			panic(unsupported("field of unsupported struct value"))
+		}
+		st.vals[v] = x.Fields[v.Field]
 	default:
 		panic(unsupported(fmt.Sprintf("instruction %T", in)))
 	}
@@ -216,6 +222,13 @@ func (ex *Exec) stepStore(st *State, v *ssa.Store) {
 			return
 		}
 		st.globals[p.Global] = val
+	case PCellField:
+		cur := st.cells[p.Cell]
+		nv := SV{K: KStruct, Fields: append([]SV(nil), cur.Fields...)}
+		nv.Fields[p.Field] = val
+		st.cells[p.Cell] = nv
+	case PExtField:
+		panic(unsupported("store to a field of a dependency struct"))
 	case PCellElem:
 		arr := st.cells[p.Cell]
 		if val.K != KScalar {
@@ -291,6 +304,16 @@ func (ex *Exec) load(st *State, p *Pointer, instr ssa.Instruction) SV {
 		panic(unsupported("load of package-level variable with unknown value: " + p.Global.Name()))
 	case PExt:
 		return ex.p.extGlobal(ex, st, p.Global)
+	case PCellField:
+		return st.cells[p.Cell].Fields[p.Field]
+	case PExtField:
+		c := classify(p.FType)
+		if c.K != KScalar {
+			panic(unsupported("field of a dependency struct with unsupported type"))
+		}
+		fn := "f_extfield_" + smtName(c.Sort)
+		ex.declareFun(fn, []string{SInt, SInt}, c.Sort)
+		return Scalar(App(c.Sort, fn, p.Obj, IntLit(int64(p.Field))))
 	case PCellElem:
 		arr := st.cells[p.Cell]
 		return Scalar(Select(arr.T, p.Idx))
@@ -454,9 +477,17 @@ func (ex *Exec) stepMakeInterface(st *State, v *ssa.MakeInterface) {
 		case "error":
 			ex.declareFun("f_anyErr", []string{SErr}, SAny)
 			st.vals[v] = Scalar(App(SAny, "f_anyErr", x.T))
+		case "struct":
+			st.vals[v] = x // kept structured for the contracts of callees that take `any`
 		default:
 			st.vals[v] = Scalar(ex.fresh("any", SAny))
 		}
+	case "iface":
+		if x.K == KScalar && x.T.Sort == SInt {
+			st.vals[v] = x
+			return
+		}
+		panic(unsupported("make interface " + v.Type().String() + " from " + v.X.Type().String()))
 	default:
 		panic(unsupported("make interface " + v.Type().String() + " from " + v.X.Type().String()))
 	}
@@ -579,4 +610,56 @@ func (ex *Exec) stepIndexAddr(st *State, v *ssa.IndexAddr) {
 	default:
 		panic(unsupported("IndexAddr on unsupported operand"))
 	}
+}
+
+func (ex *Exec) stepFieldAddr(st *State, v *ssa.FieldAddr) {
+	x := ex.val(st, v.X)
+	switch {
+	case x.K == KPtr && x.Ptr.Kind == PCell:
+		if st.cells[x.Ptr.Cell].K != KStruct {
+			panic(unsupported("field address of a non-struct cell"))
+		}
+		st.vals[v] = SV{K: KPtr, Ptr: &Pointer{Kind: PCellField, Cell: x.Ptr.Cell, Field: v.Field}}
+	case x.K == KScalar && x.T.Sort == SInt:
+		ex.safety(st, "nil", Not(Eq(x.T, IntLit(0))), v, "nil pointer dereference")
+		ft := v.Type().(*types.Pointer).Elem()
+		st.vals[v] = SV{K: KPtr, Ptr: &Pointer{Kind: PExtField, Obj: x.T, Field: v.Field, FType: ft}}
+	default:
+		panic(unsupported("field address of unsupported operand"))
+	}
+}
+
+func (ex *Exec) stepDefer(st *State, v *ssa.Defer) {
+	var args []SV
+	if v.Call.IsInvoke() {
+		args = append(args, ex.val(st, v.Call.Value))
+	}
+	for _, a := range v.Call.Args {
+		args = append(args, ex.val(st, a))
+	}
+	st.defers = append(st.defers, deferred{v, args})
+}
+
+// runDefers executes the deferred calls LIFO (simple form only: static or
+// interface calls with an assumed contract; results are discarded).
+func (ex *Exec) runDefers(st *State, at ssa.Instruction) {
+	for i := len(st.defers) - 1; i >= 0; i-- {
+		d := st.defers[i]
+		cc := d.call.Call
+		var name string
+		if cc.IsInvoke() {
+			name = "invoke " + typeShort(cc.Value.Type()) + "." + cc.Method.Name()
+		} else if f, ok := cc.Value.(*ssa.Function); ok {
+			name = f.String()
+		}
+		h := deps[name]
+		if h == nil {
+			ex.failObl("dep", "uncontracted-defer/"+name, "deferred call without an assumed contract", ex.fnTags(), d.call)
+			ex.havocAll(st)
+			continue
+		}
+		ex.p.usedDeps[name] = true
+		_ = h.fn(ex, st, nil, d.args)
+	}
+	st.defers = nil
 }
